@@ -57,6 +57,32 @@ def _as_int(x):
     raise Unsupported(f"integer expected, got {x!r}")
 
 
+class TooLarge(Unsupported):
+    """a formula outgrew the budget (the analysed code repeats a non-cancelling operation): ANALYSIS-ERROR, never a verdict"""
+
+
+SIZE_LIMIT = 300000
+
+
+def _budget(*pairs):
+    for p, q in pairs:
+        if len(p.t) * len(q.t) > SIZE_LIMIT:
+            raise TooLarge(f"formula too large ({len(p.t)} x {len(q.t)} terms)")
+
+
+def _guarded(op, a, b):
+    """Rat arithmetic with a size check before every polynomial product"""
+    if op in ("+", "-"):
+        if not (a.d == b.d):
+            _budget((a.n, b.d), (b.n, a.d), (a.d, b.d))
+        return a + b if op == "+" else a - b
+    if op == "*":
+        _budget((a.n, b.n), (a.d, b.d))
+        return a * b
+    _budget((a.n, b.d), (a.d, b.n))
+    return a / b
+
+
 def s_bin(op, a, b):
     ia = isinstance(a, int) and not isinstance(a, bool)
     ib = isinstance(b, int) and not isinstance(b, bool)
@@ -65,16 +91,16 @@ def s_bin(op, a, b):
     if isinstance(b, bool):
         b, ib = int(b), True
     if op == "+":
-        return a + b if ia and ib else R(a) + R(b)
+        return a + b if ia and ib else _guarded("+", R(a), R(b))
     if op == "-":
-        return a - b if ia and ib else R(a) - R(b)
+        return a - b if ia and ib else _guarded("-", R(a), R(b))
     if op == "*":
-        return a * b if ia and ib else R(a) * R(b)
+        return a * b if ia and ib else _guarded("*", R(a), R(b))
     if op == "/":
         rb = R(b)
         if rb.is_zero():
             raise Unsupported("division by zero")
-        return R(a) / rb
+        return _guarded("/", R(a), rb)
     if op == "//":
         if ia and ib and b != 0:
             return a // b
@@ -98,7 +124,11 @@ def s_equal(a, b):
     if isinstance(a, Und) or isinstance(b, Und):
         return False
     try:
-        return R(a).equals(R(b))
+        ra, rb = R(a), R(b)
+        _budget((ra.n, rb.d), (rb.n, ra.d))
+        return ra.equals(rb)
+    except TooLarge:
+        raise
     except Unsupported:
         return False
 
